@@ -358,6 +358,7 @@ def sync_trace(v):
     ran = []; spawned = 1
     for a in acts:
         if a[0] in ('interact', 'drop_wrapper', 'recycle'): spawned += 1
+        if a[0] == 'drop_wrapper' and len(a) > 1 and a[1] == 'task_runs_at_once': return None      # a task runs between two statements of the async thread
         if a[0] == 'run':
             if any(k not in ran for k in range(1, a[1])): return None
             ran.append(a[1])
@@ -406,7 +407,7 @@ def confirm_sync(pid, v, blobs):
         if trace is None or (v['cfg'].get('manager') not in (None, 'r2d2')):
             json.dump({'kind': 'sync-engine-only', 'violation': {'property': pid, 'what': v['what']}, 'trace': v['trace'], 'cfg': v['cfg']}, open(path, 'w'), indent=1)
             return {'status': 'engine_only', 'path': path,
-                    'detail': 'no native realisation: ' + ('blocking tasks do not run in spawn order in this trace' if trace is None else f'no scriptable native backend for the {v["cfg"].get("manager")} manager')}
+                    'detail': 'no native realisation: ' + ('blocking tasks do not run in spawn order in this trace, or a task runs between two statements of the async thread' if trace is None else f'no scriptable native backend for the {v["cfg"].get("manager")} manager')}
         build_driver_sync()
         trace['violation'] = {'property': pid, 'what': v['what']}
         prog = program(blobs, v['crates'])
